@@ -3,14 +3,16 @@ import glob, json, os, random
 from harness import tlc, engine
 from harness.common import Machinery, REPO
 from checks.c04_driver import RECEIVERS
+from checks.c13 import judge_retry
 
 MC_EMIT_CFG = "INIT McInit\nNEXT McNext\nCONSTRAINT McEmit\nINVARIANT McLaws\nINVARIANT McPrefix\nCHECK_DEADLOCK FALSE\n"
 MC_CFG = "INIT McInit\nNEXT McNext\nINVARIANT McLaws\nINVARIANT McPrefix\nCHECK_DEADLOCK FALSE\n"
+TOK_CFG = "INIT TokInit\nNEXT TokNext\nCONSTRAINT TokEmit\nINVARIANT TokLaw\nCHECK_DEADLOCK FALSE\n"
 GRID_CFG = "INIT GridInit\nNEXT GridNext\nCONSTRAINT GridEmit\nCHECK_DEADLOCK FALSE\n"
 JUDGE_CFG = "INIT JudgeInit\nNEXT JudgeNext\nCHECK_DEADLOCK FALSE\n"
 DRIVER = "checks.c04_driver:driver"
 ALLOCATING = ["repeat", "Array", "ArrayBuffer", "Int8Array", "Uint8Array", "Uint8ClampedArray", "Int16Array", "Uint16Array",
-              "Int32Array", "Uint32Array", "Float32Array", "Float64Array", "padStart", "padEnd", "fill", "from"]
+              "Int32Array", "Uint32Array", "Float32Array", "Float64Array", "padStart", "padEnd", "fill", "from", "constructor"]
 HUGE = ["p31", "p53", "e21"]
 
 KEYWORDS = ["var", "function", "return", "if", "else", "while", "do", "for", "in", "of", "break", "continue", "switch", "case",
@@ -18,11 +20,11 @@ KEYWORDS = ["var", "function", "return", "if", "else", "while", "do", "for", "in
             "null", "void"]
 PUNCT = ["(", ")", "{", "}", "[", "]", ";", ",", ".", ":", "?", "+", "-", "*", "/", "%", "**", "++", "--", "<", ">", "<=", ">=",
          "==", "!=", "===", "!==", "&&", "||", "!", "&", "|", "^", "~", "<<", ">>", ">>>", "=", "+=", "-=", "*=", "/=", "%=",
-         "&=", "|=", "^=", "<<=", ">>=", ">>>=", "=>"]
+         "**=", "&=", "|=", "^=", "<<=", ">>=", ">>>=", "=>"]
 OPERANDS = ["a", "b", "1", "0.5", "'s'", "/r/g", "x1"]
 VOCAB = KEYWORDS + PUNCT + OPERANDS
 
-NOLEX = {"o": "none", "line": 0, "col": 0, "type": "", "where": "", "msg": ""}
+NOLEX = {"o": "none", "line": 0, "col": 0, "steps": 0, "type": "", "where": "", "msg": ""}
 
 
 def rec(i, kind, cls=(), toks=(), lex=None, out=None, lens=(0,), fname="", args=()):
@@ -70,66 +72,87 @@ def mutate(src, rng, others):
 def run(rep):
     quick = rep.tier == "quick"
     rng = random.Random(rep.seed)
-    # ---- A. LexerFSM: model checking, and enumeration of the class strings (S->C) --------------------------------
-    res = tlc.run(rep.pid, "C04", MC_EMIT_CFG, env={"TIER": rep.tier, "MAXLEN": 4 if quick else 5}, timeout=1700, tag="mc_emit")
-    rep.add_tlc("LexerFSM laws + enumeration, length <= %d" % (4 if quick else 5), res)
-    cls_strings = sorted({(r["pf"], tuple(r["cls"])) for r in res.records if r.get("kind") == "cls"})
-    res.records, res.stdout = None, ""
-    if len(cls_strings) < 50000:
-        raise Machinery("only %d class strings enumerated" % len(cls_strings))
+    stats = {"recs": 0, "ncalls": 0, "discovered": {}}
+    maxlen = 4 if quick else 5
+    # ---- A. LexerFSM: model checking, and enumeration of the class strings (S->C), one alphabet at a time ----------
+    ncls = 0
+    for pf in (["ABC"] if quick else ["A", "B", "C"]):
+        env = {"TIER": rep.tier, "MAXLEN": maxlen}
+        if len(pf) == 1:
+            env["PROFILE"] = pf
+        res = tlc.run(rep.pid, "C04", MC_EMIT_CFG, env=env, timeout=1700, tag="mc_emit_" + pf)
+        rep.add_tlc("LexerFSM laws + enumeration, alphabet %s, length <= %d" % (pf, maxlen), res)
+        cls_strings = sorted({tuple(r["cls"]) for r in res.records if r.get("kind") == "cls"})
+        res.records, res.stdout = None, ""
+        if len(cls_strings) < 13 ** maxlen:
+            raise Machinery("only %d class strings enumerated for alphabet %s" % (len(cls_strings), pf))
+        ncls += len(cls_strings)
+        # engine + judge in chunks (memory)
+        for lo in range(0, len(cls_strings), 150000):
+            ecases = []
+            for n, cls in enumerate(cls_strings[lo:lo + 150000]):
+                for conc in ((0, 1) if (quick and len(cls) <= 3) else (n % 2,)):
+                    ecases.append({"kind": "cls", "cls": list(cls), "conc": conc})
+            process(rep, rng, ecases, stats)
+        del cls_strings
+    rep.spaces.append({"space": "character-class strings over three 13-class alphabets, length <= %d (TLC-enumerated)" % maxlen,
+                       "cases": ncls, "complete": True})
     if not quick:
         # the deep run: length 6 on the comment / string / regex alphabet (no emission)
         r6 = tlc.run(rep.pid, "C04", MC_CFG, env={"TIER": rep.tier, "MAXLEN": 6, "PROFILE": "A"}, timeout=2400, tag="mc_deep")
         rep.add_tlc("LexerFSM laws, alphabet A, length <= 6", r6)
-    rep.spaces.append({"space": "character-class strings over three 13-class alphabets (TLC-enumerated)", "cases": len(cls_strings),
-                       "complete": True})
-    # ---- B. argument vectors of the built-in grid (TLC-enumerated) --------------------------------------------------
+        # longer seeded strings over the same alphabets
+        alph = {"A": ["sp", "nl", "g", "1", "q", "Q", "bs", "/", "*", "[", "]", "+", "#"],
+                "B": ["0", "1", "9", "x", "e", "a", "u", ".", "+", "q", "bs", "{", "}"],
+                "C": ["=", "<", ">", "!", "&", "*", "+", "/", "g", "b", "o", "0", "7"]}
+        ecases = []
+        for _ in range(150000):
+            a = alph[rng.choice("ABBC")]
+            cls = [rng.choice(a) for _ in range(rng.randrange(6, 13))]
+            if "&&=" in "".join(cls):
+                continue
+            ecases.append({"kind": "cls", "cls": cls, "conc": rng.randrange(2)})
+        rep.spaces.append({"space": "seeded class strings of length 6..12", "cases": len(ecases), "complete": False})
+        process(rep, rng, ecases, stats)
+    # ---- A2. token sequences over the expression vocabulary: acceptor of JsGrammar (S->C) -----------------------------
+    tres = tlc.run(rep.pid, "C04", TOK_CFG, env={"TIER": rep.tier}, timeout=1200, tag="toks")
+    rep.add_tlc("JsGrammar.ParseStmts acceptor laws + enumeration of token sequences", tres)
+    seqs = sorted({tuple(r["cls"]) for r in tres.records if r.get("kind") == "toks"})
+    tres.records, tres.stdout = None, ""
+    if len(seqs) < 10000:
+        raise Machinery("only %d token sequences" % len(seqs))
+    rep.spaces.append({"space": "token sequences over 25 expression tokens, length <= %d (TLC-enumerated)" % (3 if quick else 4),
+                       "cases": len(seqs), "complete": True})
+    for lo in range(0, len(seqs), 200000):
+        process(rep, rng, [{"kind": "src", "src": " ".join(t), "toks": list(t), "what": "token sequence"} for t in seqs[lo:lo + 200000]], stats)
+    del seqs
+    # ---- B. the built-in grid: argument vectors enumerated by TLC, functions discovered at run time -----------------
     gres = tlc.run(rep.pid, "C04", GRID_CFG, env={"TIER": rep.tier}, timeout=600, tag="grid")
     rep.add_tlc("C04.ArgVectors", gres)
     vecs = sorted({tuple(r["cls"]) for r in gres.records if r.get("kind") == "vec"}, key=lambda v: (len(v), v))
     if len(vecs) < 100:
         raise Machinery("only %d argument vectors" % len(vecs))
     rep.spaces.append({"space": "argument vectors of length <= 2 (TLC-enumerated)", "cases": len(vecs), "complete": True})
-
-    ecases, info = [], {}
-
-    def add(case, **meta):
-        case["id"] = len(ecases)
-        ecases.append(case)
-        info[case["id"]] = meta
-        return case["id"]
-
-    for n, (pf, cls) in enumerate(cls_strings):
-        for conc in ((0, 1) if quick else (n % 2,)):
-            add({"kind": "cls", "cls": list(cls), "conc": conc}, kind="cls", cls=cls)
-    if not quick:                                   # longer seeded strings over the same alphabets
-        alph = {"A": ["sp", "nl", "g", "1", "q", "Q", "bs", "/", "*", "[", "]", "+", "#"],
-                "B": ["0", "1", "9", "x", "e", "a", "u", ".", "+", "q", "bs", "{", "}"],
-                "C": ["=", "<", ">", "!", "&", "*", "+", "/", "g", "b", "o", "0", "7"]}
-        for _ in range(150000):
-            a = alph[rng.choice("ABBC")]
-            cls = tuple(rng.choice(a) for _ in range(rng.randrange(6, 13)))
-            if "**=" in "".join(cls) or "&&=" in "".join(cls):
-                continue
-            add({"kind": "cls", "cls": list(cls), "conc": rng.randrange(2)}, kind="cls", cls=cls)
-    ncls = len(ecases)
-    # grid: one case per receiver kind and slice of the vectors (work is spread over the children)
+    ecases = []
     nslice = 4
     for recv in RECEIVERS:
         for k in range(nslice):
             for intrep in (("lit",) if quick else ("lit", "float")):
-                add({"kind": "grid", "recv": recv, "vecs": [list(v) for v in vecs[k::nslice]], "allocating": ALLOCATING, "huge": HUGE,
-                     "intrep": intrep}, kind="grid")
+                ecases.append({"kind": "grid", "recv": recv, "vecs": [list(v) for v in vecs[k::nslice]], "allocating": ALLOCATING,
+                               "huge": HUGE, "intrep": intrep})
+    process(rep, rng, ecases, stats)
     # ---- C. corpus prefixes, mutations, token soup (C->S) -------------------------------------------------------------
     files = corpus()
-    nsrc0 = len(ecases)
+    ecases = []
     npre = 0
     for name, src in files:
         stride = 1 if (not quick or len(src) <= 1300) else 11
         off = rng.randrange(stride)
         for i in range(off, len(src) + 1, stride):
-            add({"kind": "src", "src": src[:i], "time_limit": 0.3}, kind="src", what="prefix %s[:%d]" % (name, i))
+            ecases.append({"kind": "src", "src": src[:i], "time_limit": 0.3, "what": "prefix %s[:%d]" % (name, i)})
             npre += 1
+    process(rep, rng, ecases, stats)
+    ecases = []
     small = [s for _, s in files if len(s) <= (3500 if quick else 10 ** 9)]
     nmut = 1500 if quick else 30000
     for k in range(nmut):
@@ -137,54 +160,84 @@ def run(rep):
         m = mutate(s, rng, small)
         if rng.random() < 0.3:
             m = mutate(m, rng, small)
-        add({"kind": "src", "src": m, "time_limit": 0.3}, kind="src", what="mutation #%d" % k)
+        ecases.append({"kind": "src", "src": m, "time_limit": 0.3, "what": "mutation #%d" % k})
     nsoup = 0
     for a in VOCAB:                                  # all soups of length <= 2, seeded longer ones
-        add({"kind": "src", "src": a}, kind="src", what="soup")
+        ecases.append({"kind": "src", "src": a, "what": "soup"})
         for b in VOCAB:
-            add({"kind": "src", "src": a + " " + b}, kind="src", what="soup")
+            ecases.append({"kind": "src", "src": a + " " + b, "what": "soup"})
             nsoup += 1
     for k in range(15000 if quick else 250000):
         toks = [rng.choice(VOCAB) for _ in range(rng.randrange(3, 6))]
         sep = rng.choice([" ", " ", "\n", ""])
-        add({"kind": "src", "src": sep.join(toks)}, kind="src", what="soup")
+        ecases.append({"kind": "src", "src": sep.join(toks), "what": "soup"})
         nsoup += 1
+    process(rep, rng, ecases, stats)
+    process(rep, rng, [], stats, flush=True)          # quick tier: everything collected so far in one engine / judge round
+    discovered = stats["discovered"]
+    nfn = sum(len(v) for v in discovered.values())
+    if nfn < 150 or stats["ncalls"] < 10000:
+        raise Machinery("built-in discovery found only %d functions / %d calls" % (nfn, stats["ncalls"]))
+    rep.spaces.append({"space": "built-in grid: %d function-valued properties discovered on %d receiver kinds x argument vectors"
+                                % (nfn, len(discovered)), "cases": stats["ncalls"], "complete": True})
+    rep.notes["discovered_functions"] = {k: sorted(v) for k, v in sorted(discovered.items())}
     rep.spaces.append({"space": "prefixes of the corpus programs", "cases": npre, "complete": not quick})
     rep.spaces.append({"space": "seeded truncations / splices / mutations of corpus programs", "cases": nmut, "complete": False})
     rep.spaces.append({"space": "token soup over the token vocabulary (all of length <= 2, seeded 3..5)", "cases": nsoup, "complete": False})
+    rep.evaluations = stats["recs"]
+    rep.exhaustive = False
+    rep.notes["rule"] = ("outcome typing: every evaluation returns a value or raises a member of the JSError family; a JSSyntaxError "
+                         "raised by the front end carries a position inside the source (or at its end); lexical errors are reported at "
+                         "the offending token; token streams of the real lexer equal those of LexerFSM")
+    rep.assumptions += ["LexerFSM.tla transcribes the ECMA-262 lexical grammar of the supported fragment (strict mode, no Annex B)",
+                        "calls that allocate memory proportional to an argument (repeat, Array, ArrayBuffer, typed arrays, constructor) "
+                        "are not made with arguments >= 2^31 (CallSupported)"]
 
-    # ---- engine ------------------------------------------------------------------------------------------------------
-    rng.shuffle(ecases)                              # spread the slow cases over the children
-    results = engine.run_cases(rep.pid, ecases, driver=DRIVER, timeout=3000)
-    recs, srcs, discovered = [], {}, {}
+
+def process(rep, rng, ecases, stats, flush=False):
+    """engine -> judge -> verdicts for one chunk of cases (the quick tier collects all chunks and runs them once)"""
+    if rep.tier == "quick" and not flush:
+        stats.setdefault("pending", []).extend(ecases)
+        return
+    if flush:
+        ecases = stats.pop("pending", [])
+    if not ecases:
+        return
+    for i, c in enumerate(ecases):
+        c["id"] = i
+    byid = {c["id"]: c for c in ecases}
+    order = list(ecases)
+    rng.shuffle(order)                               # spread the slow cases over the children
+    results = engine.run_cases(rep.pid, order, driver=DRIVER, timeout=3000)
+    recs, srcs = [], {}
     for r in results:
-        m = info[r["id"]]
-        if m["kind"] == "cls":
+        c = byid[r["id"]]
+        if c["kind"] == "cls":
             i = len(recs)
-            recs.append(rec(i, "cls", cls=m["cls"], toks=r["toks"], lex=r["lex"], out=r["out"]))
+            if "toks" not in r:                      # the watchdog fired twice
+                recs.append(rec(i, "cls", cls=c["cls"], lex=dict(NOLEX, o="hang"), out=dict(NOLEX, o="hang")))
+                srcs[i] = "lex/eval classes %r conc %d" % (c["cls"], c["conc"])
+                continue
+            recs.append(rec(i, "cls", cls=c["cls"], toks=r["toks"], lex=r["lex"], out=r["out"]))
             srcs[i] = "lex/eval " + repr(r["src"])
-        elif m["kind"] == "src":
+        elif c["kind"] == "src":
             i = len(recs)
-            recs.append(rec(i, "src", out=r["out"], lens=r["lens"]))
-            srcs[i] = m["what"] + ": " + repr(ecases_src(ecases, r["id"]))[:200]
+            if "toks" in c:
+                recs.append(rec(i, "toks", toks=c["toks"], out=r.get("out", dict(NOLEX, o="hang")), lens=r.get("lens", [0])))
+            else:
+                recs.append(rec(i, "src", out=r.get("out", dict(NOLEX, o="hang")), lens=r.get("lens", [0])))
+            srcs[i] = c["what"] + ": " + repr(c["src"])[:200]
         elif "discovered" in r:
-            discovered.setdefault(r["recv"], set()).update(r["discovered"])
-        else:
+            stats["discovered"].setdefault(r["recv"], set()).update(r["discovered"])
+        elif "fname" in r:
             i = len(recs)
             recs.append(rec(i, "call", out=r["out"], fname=r["fname"], args=r["args"]))
             srcs[i] = "%s %s" % (r["recv"], r["src"])
-    ncalls = sum(1 for r in recs if r["kind"] == "call")
-    nfn = sum(len(v) for v in discovered.values())
-    if nfn < 150 or ncalls < 10000:
-        raise Machinery("built-in discovery found only %d functions / %d calls" % (nfn, ncalls))
-    rep.spaces.append({"space": "built-in grid: %d function-valued properties discovered on %d receiver kinds x argument vectors"
-                                % (nfn, len(discovered)), "cases": ncalls, "complete": True})
-    rep.notes["discovered_functions"] = {k: sorted(v) for k, v in sorted(discovered.items())}
-    del results
-    # ---- judge -------------------------------------------------------------------------------------------------------
-    verdicts, st, tr, wall = tlc.judge(rep.pid, "C04", recs, JUDGE_CFG, timeout=2400)
+            stats["ncalls"] += 1
+    del results, byid, order
+    verdicts, st, tr, wall = judge_retry(rep, recs, module="C04")
     rep.add_judge(len(recs), st, tr)
-    rep.evaluations = len(recs)
+    stats["recs"] += len(recs)
     got = {v["id"]: v for v in verdicts}
     if len(got) != len(recs):
         raise Machinery("judge returned %d verdicts for %d records" % (len(got), len(recs)))
@@ -199,16 +252,3 @@ def run(rep):
         rep.mismatch(srcs[i], {"why": v["why"], "dev": v.get("dev", ""), "out": r["out"], "lex": r["lex"], "args": r["args"],
                                "fname": r["fname"], "case": {"m": r["kind"]}, "actual": {"o": r["out"]["o"], "cls": r["out"]["type"] + "@" + r["out"]["where"]}},
                      dev=v.get("dev", ""))
-    rep.exhaustive = False
-    rep.notes["rule"] = ("outcome typing: every evaluation returns a value or raises a member of the JSError family; a JSSyntaxError "
-                         "carries a position inside the source (or at its end); lexical errors are reported at the offending token")
-    rep.assumptions += ["LexerFSM.tla transcribes the ECMA-262 lexical grammar of the supported fragment (strict mode, no Annex B)",
-                        "calls that allocate memory proportional to an argument (repeat, Array, ArrayBuffer, typed arrays) are not "
-                        "made with arguments >= 2^31 (CallSupported)"]
-
-
-def ecases_src(ecases, cid):
-    for c in ecases:
-        if c["id"] == cid:
-            return c.get("src", "")
-    return ""
